@@ -467,7 +467,7 @@ func (fsrv *FileServer) ServeHTTP(w http.ResponseWriter, r *http.Request, next c
 
 		// try to get the etag from pre computed files if an etag suffix list was provided
 		if etag == "" && fsrv.EtagFileExtensions != nil {
-			etag, err = fsrv.getEtagFromFile(fileSystem, compressedFilename)
+			etag, err = fsrv.getEtagFromFile(fileSystem, compressedFilename, filesToHide)
 			if err != nil {
 				return err
 			}
@@ -501,7 +501,7 @@ func (fsrv *FileServer) ServeHTTP(w http.ResponseWriter, r *http.Request, next c
 		defer file.Close()
 		// try to get the etag from pre computed files if an etag suffix list was provided
 		if etag == "" && fsrv.EtagFileExtensions != nil {
-			etag, err = fsrv.getEtagFromFile(fileSystem, filename)
+			etag, err = fsrv.getEtagFromFile(fileSystem, filename, filesToHide)
 			if err != nil {
 				return err
 			}
@@ -744,9 +744,13 @@ func calculateEtag(d os.FileInfo) string {
 }
 
 // Finds the first corresponding etag file for a given file in the file system and return its content
-func (fsrv *FileServer) getEtagFromFile(fileSystem fs.FS, filename string) (string, error) {
+func (fsrv *FileServer) getEtagFromFile(fileSystem fs.FS, filename string, filesToHide []string) (string, error) {
 	for _, suffix := range fsrv.EtagFileExtensions {
 		etagFilename := filename + suffix
+		if fileHidden(etagFilename, filesToHide) {
+			// pretend this etag file doesn't exist
+			continue
+		}
 		etag, err := fs.ReadFile(fileSystem, etagFilename)
 		if errors.Is(err, fs.ErrNotExist) {
 			continue
